@@ -6,14 +6,14 @@
 
   Model: the shared Core state machine (MvModel/Core.lean) with the id `put_internal` attaches to
   derived data made a parameter (MvModel/Derived.lean): `IdPolicy.walSeq` = `parent_seq as FrameId`
-  (the code as it was; `stepG .walSeq = step`, the shared model verbatim), `IdPolicy.frameId` =
-  `next_frame_id()` read before the WAL append (the code with /verif/fixes/C26.diff).
+  (the code as it was before the repair a8580e2), `IdPolicy.frameId` = `next_frame_id()` read before
+  the WAL append (the repaired code; `stepG .frameId = step`, the shared Core model verbatim).
   Reference: `specRun` (MvModel/Spec.lean) — acknowledged puts/updates/deletes take effect in order,
   ids are positions.
 
   Results (all for arbitrary histories and arbitrary trace inputs: checkpoint points, WAL sizes,
   footer positions, stored lengths, number of cards the extractor produced, queue requests):
-    * `C26_counterexample`   ¬ C26_full: under `walSeq` (the shared model as it stands) the second put of
+    * `C26_counterexample`   ¬ C26_full: under `walSeq` (the code before a8580e2) the second put of
                              `put; commit; put` files its card, record and queue entry under 3; its
                              document is frame 1.  (`C26_counterexample_first_put`: even the very first
                              put names 1 instead of 0.)
@@ -54,8 +54,7 @@ def DerivedRefersToDocument (p : IdPolicy) : Prop :=
       (specRun [] (traceG p Mem.create (ops ++ [op])))[doc.id]? = some doc ∧
       Adds (stepG p (runG p Mem.create ops) op).1 (runG p Mem.create ops) doc.id nc q
 
-/-- the property for the code as it was (`parent_seq as FrameId`; `stepG .walSeq` is the shared Core model:
-    `stepG_walSeq`, `runG_walSeq`, `traceG_walSeq`) -/
+/-- the property for the code as it was (`parent_seq as FrameId`, before a8580e2) -/
 def C26_full : Prop := DerivedRefersToDocument .walSeq
 
 /-! ## The defect -/
@@ -69,10 +68,10 @@ def wPut (ts : Int) (tok : String) : Op :=
 def witnessOps : List Op := [wPut 100 "aa", .commit 900]
 
 theorem witness_cards :
-    (step (run Mem.create witnessOps) (wPut 101 "bb")).1.cards = [1, 3] ∧
-    (step (run Mem.create witnessOps) (wPut 101 "bb")).1.queue = [1, 3] ∧
-    (step (run Mem.create witnessOps) (wPut 101 "bb")).1.enrRecs = [1, 3] ∧
-    (specRun [] (trace Mem.create (witnessOps ++ [wPut 101 "bb"]))).map (·.id) = [0, 1] := by
+    (stepG .walSeq (runG .walSeq Mem.create witnessOps) (wPut 101 "bb")).1.cards = [1, 3] ∧
+    (stepG .walSeq (runG .walSeq Mem.create witnessOps) (wPut 101 "bb")).1.queue = [1, 3] ∧
+    (stepG .walSeq (runG .walSeq Mem.create witnessOps) (wPut 101 "bb")).1.enrRecs = [1, 3] ∧
+    (specRun [] (traceG .walSeq Mem.create (witnessOps ++ [wPut 101 "bb"]))).map (·.id) = [0, 1] := by
   decide
 
 theorem C26_counterexample : ¬ C26_full := by
@@ -92,16 +91,15 @@ theorem C26_counterexample : ¬ C26_full := by
 
 /-- the very first put of a fresh memory is already wrong: sequence numbers start at 1, frame ids at 0 -/
 theorem C26_counterexample_first_put :
-    (step Mem.create (wPut 100 "aa")).1.cards = [1] ∧ (step Mem.create (wPut 100 "aa")).1.queue = [1] ∧
-    (specRun [] (trace Mem.create [wPut 100 "aa"])).map (·.id) = [0] := by
+    (stepG .walSeq Mem.create (wPut 100 "aa")).1.cards = [1] ∧ (stepG .walSeq Mem.create (wPut 100 "aa")).1.queue = [1] ∧
+    (specRun [] (traceG .walSeq Mem.create [wPut 100 "aa"])).map (·.id) = [0] := by
   decide
 
 /-- what is true of the code as it was: derived data carries the WAL sequence number of the put's
     parent record — the number the put returns -/
 theorem C26_partial (m : Mem) (op : Op) (nc : Nat) (q : Bool) (hd : op.derives = some (nc, q))
-    (hack : (step m op).2.isAck = true) :
-    (step m op).2 = .seq (m.seq + 1) ∧ Adds (step m op).1 m (m.seq + 1) nc q := by
-  rw [← stepG_walSeq] at hack ⊢
+    (hack : (stepG .walSeq m op).2.isAck = true) :
+    (stepG .walSeq m op).2 = .seq (m.seq + 1) ∧ Adds (stepG .walSeq m op).1 m (m.seq + 1) nc q := by
   cases op with
   | put a t =>
     simp only [Op.derives, Option.some.injEq, Prod.mk.injEq] at hd
@@ -154,6 +152,17 @@ theorem C26_derived_ids : DerivedRefersToDocument .frameId := by
     · rw [hfid] at h
       exact h
   | _ => simp [Op.derives] at hd
+
+/-- the same statement on the shared Core model itself (`step` / `run` / `trace`), which mirrors the
+    repaired code: `stepG .frameId = step` -/
+theorem C26_core_model (ops : List Op) (op : Op) (nc : Nat) (q : Bool) (hd : op.derives = some (nc, q))
+    (hack : (step (run Mem.create ops) op).2.isAck = true) :
+    ∃ doc, specDocOf (specRun [] (trace Mem.create ops)) op = some doc ∧
+      (specRun [] (trace Mem.create (ops ++ [op])))[doc.id]? = some doc ∧
+      Adds (step (run Mem.create ops) op).1 (run Mem.create ops) doc.id nc q := by
+  have h := C26_derived_ids ops op nc q hd
+  simp only [runG_frameId, traceG_frameId, stepG_frameId] at h
+  exact h hack
 
 /-- the id keeps naming that document: no continuation of the history (without re-creating the memory)
     changes the identity — id, timestamp, URI, kind, track, tags, labels, role, supersedes, chunk
